@@ -375,7 +375,8 @@ class TransactionContext:
         try:
             match = re.search(pattern, text, re.IGNORECASE)
             if match and match.groups():
-                return match.group(1)
+                # (None when the group is optional and took no part in the match)
+                return match.group(1) or ''
             return ''
         except re.error as e:
             raise ExpressionError(f"Invalid regex pattern in extract(): {e}")
